@@ -846,6 +846,9 @@ func (d *desc) output(o txo) lg.Output {
 func (d *desc) build(idx int) (*lg.TxSpec, *lg.State, error) {
 	st := lg.NewState(lg.Mainnet)
 	s := &lg.TxSpec{Era: d.era, Fee: d.fee, Signers: []lg.Key{payer}, TagSets: d.tagSets}
+	if d.era == lg.Shelley {
+		s.TTL = lg.U64(1 << 40) // mandatory in Shelley; far in the future
+	}
 	for i, in := range d.inputs {
 		ref := lg.In(fmt.Sprintf("c27-%d-in%d", idx, i), uint32(i))
 		if err := st.AddUtxo(d.era, ref, d.output(in)); err != nil {
